@@ -25,6 +25,8 @@ type Ctx struct {
 	tags   []string
 	kernel []kcase // small cases re-evaluated inside the Coq kernel
 	kbytes int
+	failMu sync.Mutex
+	hangs  int
 }
 
 // V is a case value rendered both in the line format of the extracted runner and as a Gallina literal.
@@ -150,8 +152,23 @@ func (c *Ctx) sample(v any) {
 }
 
 func (c *Ctx) oracleFail(what, sig string, replay any) {
+	c.failMu.Lock()
+	defer c.failMu.Unlock()
 	if len(c.Sum.OracleFails) < 50 {
 		c.Sum.OracleFails = append(c.Sum.OracleFails, OracleFail{What: what, Replay: replay, Sig: sig})
+	}
+	// every hang costs a watchdog period: after three of them the run ends with what it has (the failing inputs are
+	// reported; a run that only times out would report nothing)
+	if strings.HasSuffix(sig, "-hang") || strings.HasSuffix(sig, "-timeout") {
+		c.hangs++
+		if c.hangs >= 3 {
+			c.Sum.Notes = append(c.Sum.Notes, "run ended early after three hangs")
+			if err := c.flush(); err != nil {
+				fmt.Fprintln(os.Stderr, "harness error:", err)
+				os.Exit(3)
+			}
+			os.Exit(0)
+		}
 	}
 }
 
